@@ -13,7 +13,7 @@ use crate::{guarded, rng::Rng, Args, Log};
 const INNER: &[&str] = &[".", "..", "a", "b", "a.b", "..a", "..."];
 const FROM_FILES: &[&str] = &["a", "b", "a.b", "ts", "x.ts", "yts", "z.ts.ts", "b.ts", "..f.ts"];
 const IMPORT_FILES: &[&str] = &["a.ts", "b.ts", "a.b.ts", "ts.ts", "x.ts", "yts.ts", "z.ts.ts", ".ts", "..f.ts"];
-const BASES: &[&str] = &["./bindings", "out", "/abs/base", "p/../q/./r", "", ".", "./x/../../y"];
+const BASES: &[&str] = &["./bindings", "out", "/abs/base", "p/../q/./r", "", ".", "./x/../../y", "/r"];
 
 /// Lexical normalisation of `p` against `cwd`. `None` = the path climbs above the root.
 pub fn norm(cwd: &str, p: &str) -> Option<Vec<String>> {
